@@ -9,12 +9,20 @@ package ipnisync
 // ---------------------------------------------------------------------------
 // C03: a chain head is accepted only when signed by the expected publisher
 
-// fetch is used here through its call protocol only: on success the callback
-// has run exactly once on the response body and returned nil (its body belongs to C04).
+// fetch: on success the callback has run exactly once on the response body and
+// returned nil (call protocol used by GetHead and fetchBlock).
+// C04, "a failed sync does not impair later syncs": the legacy no-path fallback
+// may be tried on 404/403 but is committed only by a request that succeeds;
+// the publisher identity is never touched.
 //@ func (*Syncer).fetch
-//@   nobody
-//@   requires s != nil
+//@   property C04 C03 C02
+//@   requires s != nil && s.client != nil && ctx != nil
+//@   modifies s.rootURL, s.urls, s.noPath
 //@   invokes-on-success cb
+//@   ensures result != nil ==> s.noPath == old(s.noPath)
+//@   ensures s.noPath != old(s.noPath) ==> s.noPath && s.plainHTTP
+//@   ensures-local count("call:cb") <= 1
+//@   ensures-local result == nil ==> count("call:cb") == 1
 
 // From the property: a CID is returned only if the decoded head validated and
 // its signer is the publisher this syncer was created for; the CID returned is
@@ -23,7 +31,8 @@ package ipnisync
 // (API-boundary precondition; the in-repo caller is dagsync's SyncAdChain).
 //@ func (*Syncer).GetHead
 //@   property C03
-//@   requires s != nil && str(s.peerInfo.ID) != str("")
+//@   requires s != nil && s.client != nil && ctx != nil && str(s.peerInfo.ID) != str("")
+//@   assumes str(cid.Undef.str) == str("")
 //@   ghost signer := 0
 //@   ghost validated := false
 //@   at call Validate#1: after ghost signer := str(result0)
